@@ -180,10 +180,11 @@ def make_fn(tier, max_all=6, big_size=2):
             for kind, k, _, want, allowed, _ in calls:
                 o.evals += 1
                 asked = []
+                retry_key = k
                 while True:
                     cur = state_of(ft)
                     try:
-                        got = ft.get(k) if kind == "get" else ft.exists(k)
+                        got = ft.get(retry_key) if kind == "get" else ft.exists(retry_key)
                     except MissingTrieNode as e:
                         o.nontrivial += 1 if not asked else 0
                         h = check_exc(e, kind, k, Mset, ft.db, {nd.hash for nd in allowed}, lambda h: pos_of.get(h, ()), root)
@@ -196,9 +197,11 @@ def make_fn(tier, max_all=6, big_size=2):
                             break
                         asked.append(h)
                         ft.db[h] = db[h]
+                        retry_key = e.requested_key  # what the exception hands back (a bytes subclass), as a caller would use it
                         continue
                     except Exception as e:  # noqa
-                        o.viol("C07", "other_exception", f"{kind} raised {type(e).__name__} with node bodies absent", call=kind, key=k, exc=repr(e)[:160])
+                        o.viol("C07", "other_exception", f"{kind} raised {type(e).__name__} with node bodies absent"
+                               + (" (retrying with the exception's own requested_key)" if asked else ""), call=kind, key=k, exc=repr(e)[:160])
                         break
                     if got != want:
                         o.viol("C07", "wrong_result", "result differs from the complete-database result", call=kind, key=k, got=got, want=want,
